@@ -177,8 +177,7 @@ def hist_program(h):
 
 
 def gen_e2e(ctx, nprog, maxops, ntrigger, salt="c18-e2e"):
-    """(history, class): clean histories stay outside the OPEN known-defect class (keys with equal printed forms);
-    trigger histories aim at one class each -- the classes that were repaired in /repo stay here as regression
+    """(history, class): trigger histories aim at one class each -- the classes that were repaired in /repo stay here as regression
     inputs and are judged like everything else (only classes listed as open in known_findings.jsonl excuse)"""
     r = vlib.rng(ctx.seed, salt)
     out = []
@@ -189,8 +188,10 @@ def gen_e2e(ctx, nprog, maxops, ntrigger, salt="c18-e2e"):
             out.append((H.gen_list_history(r, k, geteq="any", negative_set=True), "clean"))
         else:
             kind = "dict" if x == 1 else "set"
-            kt = r.choice([H.INT, H.STR, H.TUP(H.INT, H.INT), H.STR, H.TUP(H.INT, H.STR)])
-            out.append((H.gen_keyed_history(r, k, kind=kind, kt=kt, geteq="any" if kind == "dict" else None), "clean"))
+            kt = r.choice([H.INT, H.STR, H.TUP(H.INT, H.INT), H.STR, H.TUP(H.INT, H.STR), H.FLOAT, H.TUP(H.STR, H.STR)])
+            strs = COLLIDE if kt == H.TUP(H.STR, H.STR) else H.STRS_SAFE      # printed forms may coincide: keys must not
+            out.append((H.gen_keyed_history(r, k, kind=kind, kt=kt, strs=strs, geteq="any" if kind == "dict" else None,
+                                            allow_collisions=True), "clean"))
     for i in range(ntrigger):
         k = r.randint(3, 14)
         x = i % 4
